@@ -1,5 +1,5 @@
 (* driver for the extracted sinc model (Sinc/Model.v).  Values are byte strings (hex on the wire).
-   S <hd> <size> <opk> <init> <junk> <nslots> <c0>   new sinc; then one "T <ops>" line per thread; then "R <r..>"
+   S <hd> <size> <opk> <init> <nslots> <c0>   new sinc; then one "T <ops>" line per thread; then "R <r..>"
    Z <n>                                              reset; then T lines; then R
    ops: s:<hex>:<slot>  n:<slot> (submit NULL)  e:<n>  w (wait with target)  v (wait without)
    output per micro-step: "<tid> <Kind> <counter> <ready> <res> <slots> | <states>[ ; W<t>=<val>]" then "END done|deadlock <k>" *)
@@ -32,7 +32,7 @@ let stname = function
   | PIdle -> "Idle" | PSlot _ -> "Slot" | PDec _ -> "Dec" | PC0 -> "C0" | PCol k -> "Col" ^ string_of_int (int_of_nat k)
   | PFill -> "Fill" | PAdd _ -> "Add" | PEmpty -> "Empty" | PRead _ -> "Read" | PBlk _ -> "Blk" | PCopy -> "Copy"
 let kindname = function PCol _ -> "Col" | p -> stname p
-type pending = NoSinc | Start of bool * string * string * int * int | Reset of int
+type pending = NoSinc | Start of bool * string * int * int | Reset of int
 let () =
   let vop = ref (vop_of 0) in
   let st : string state option ref = ref None in
@@ -41,15 +41,15 @@ let () =
   try while true do
     let line = input_line stdin in
     match List.filter (fun x -> x <> "") (String.split_on_char ' ' (String.trim line)) with
-    | ["S"; hd; _size; opk; iv; junk; ns; c0] ->
+    | ["S"; hd; _size; opk; iv; ns; c0] ->
       vop := vop_of (int_of_string opk);
-      pend := Start (hd <> "0", unhex iv, unhex junk, int_of_string ns, int_of_string c0); progs := []
+      pend := Start (hd <> "0", unhex iv, int_of_string ns, int_of_string c0); progs := []
     | ["Z"; n] -> pend := Reset (int_of_string n); progs := []
     | "T" :: ops -> progs := !progs @ [List.map parse_op ops]
     | "R" :: rs ->
       let rs = Array.of_list (List.map int_of_string rs) in
       let s0 = match !pend, !st with
-        | Start (hd, iv, junk, ns, c0), _ -> start hd iv junk (nat_of_int ns) (z_of_int c0) !progs
+        | Start (hd, iv, ns, c0), _ -> start hd iv (nat_of_int ns) (z_of_int c0) !progs
         | Reset n, Some s -> reset s (z_of_int n) !progs
         | _ -> failwith "R without S" in
       let s = ref s0 in
